@@ -205,7 +205,10 @@ def shards(tier):
             for first in KINDS:
                 for second in KINDS:
                     out.append(('subs', {'profile': profile, 'persistent': persistent, 'k': 5 if T else 4, 'first': first, 'second': second,
-                                         'maxreq': 4 if T else 3, 'ver': 311, 'shapes': 'all' if T else 'first'}))
+                                         'maxreq': 3, 'ver': 311, 'shapes': 'first'}))
+                    if T and profile == 'pubsubs':
+                        out.append(('subs', {'profile': profile, 'persistent': persistent, 'k': 4, 'first': first, 'second': second,
+                                             'maxreq': 4, 'ver': 311, 'shapes': 'all'}))
     for first in ('subscribe', 'unsubscribe'):
         out.append(('subs', {'profile': 'pubsubs', 'persistent': False, 'k': 3, 'first': first, 'second': 'advance', 'ver': 31}))
     return out
@@ -215,7 +218,7 @@ META = {
     'rule': 'connected subscribing client, setWindowSize(w symbolic), k free steps from {subscribe (3 shapes, QoS symbolic), unsubscribe (2 shapes), SUBACK '
             '(identifier symbolic, 0..2 granted bytes symbolic), UNSUBACK (identifier symbolic), advance(dt symbolic), setWindowSize(w symbolic), loss + rebuilt '
             'protocol + connect(clean symbolic) + CONNACK}; then the broker answers everything sent on the current connection and 1000 s pass',
-    'bounds': {'quick': 'k=4 with at most 3 requests (every argument shape for the first request of a history, the plain shape afterwards); subscriber and pubsubs; first session clean or persistent', 'thorough': 'k=5 with at most 4 requests, every argument shape throughout'},
+    'bounds': {'quick': 'k=4 with at most 3 requests (every argument shape for the first request of a history, the plain shape afterwards); subscriber and pubsubs; first session clean or persistent', 'thorough': 'k=5 with at most 3 requests; k=4 with at most 4 requests and every argument shape throughout (pubsubs)'},
     'stubs': ['fake transport', 'twisted task.Clock', 'jitter: fixed sequence'],
     'outside': ['histories longer than k steps', 'QoS outside 0..2 and wrong argument types (C20)'],
     'assumptions': ['the closing broker acknowledges exactly the SUBSCRIBE/UNSUBSCRIBE packets written on the current connection'],
